@@ -175,8 +175,13 @@ func runRetention(e *simcore.Env, tp *simcore.Tape) {
 				switch tp.Weighted(5, 2, 2) {
 				case 0:
 					ts = now.Add(-time.Duration(tp.Range(0, (ttlDays+2)*24*60)) * time.Minute)
-				case 1:
-					ts = now.Add(time.Duration(tp.Range(0, 10*24*60)) * time.Minute) // clock skew / future data
+				case 1: // clock skew / future data: slightly ahead (minutes), or hours and days ahead
+					if tp.Bool(1, 2) {
+						ts = now.Add(time.Duration(tp.Range(1, 15*60)) * time.Second)
+						e.Probe("fault.slightly_future_timestamp_write")
+					} else {
+						ts = now.Add(time.Duration(tp.Range(0, 10*24*60)) * time.Minute)
+					}
 					e.Probe("fault.future_timestamp_write")
 				default:
 					ts = now
@@ -212,6 +217,10 @@ func runRetention(e *simcore.Env, tp *simcore.Tape) {
 					if len(keys) > 0 {
 						s := segs[keys[tp.Choose(len(keys))]]
 						target := s.end.Add(ttl).Add(time.Duration(tp.Range(-1, 1)) * time.Millisecond)
+						if tp.Bool(1, 2) { // a few minutes BEFORE the edge: a slightly skewed writer must not push retention across it
+							target = s.end.Add(ttl).Add(-time.Duration(tp.Range(1, 12*60)) * time.Second)
+							e.Probe("reach.clock_lands_minutes_before_expiry_edge")
+						}
 						if target.After(now) {
 							d = target.Sub(now)
 							e.Probe("reach.clock_lands_on_expiry_edge")
